@@ -754,8 +754,7 @@ func (b *teletextPageBuffer) parsePacket28And29(i []byte, packetNumber, designat
 	}
 
 	// Triplet 1
-	// TODO triplet1 should be the results of hamming 24/18 decoding
-	triplet1 := uint32(i[2])<<16 | uint32(i[1])<<8 | uint32(i[0])
+	triplet1 := teletextHamming2418Data(i[0], i[1], i[2])
 
 	// We only process x/28 format 1
 	if packetNumber == 28 && triplet1&0xf > 0 {
@@ -768,6 +767,14 @@ func (b *teletextPageBuffer) parsePacket28And29(i []byte, packetNumber, designat
 	} else {
 		b.cd.setTripletM29(triplet1)
 	}
+}
+
+// teletextHamming2418Data returns the 18 data bits of a hamming 24/18 encoded triplet: P1 P2 D1 P3 D2 D3 D4 P4, D5 to
+// D11 P5, D12 to D18 P6. Bits are transmitted LSB first, therefore bytes are reversed like any other teletext byte.
+// Errors are not corrected.
+func teletextHamming2418Data(b1, b2, b3 byte) uint32 {
+	b1, b2, b3 = bits.Reverse8(b1), bits.Reverse8(b2), bits.Reverse8(b3)
+	return uint32(b1&0x4)>>2 | uint32(b1&0x70)>>3 | uint32(b2&0x7f)<<4 | uint32(b3&0x7f)<<11
 }
 
 // TODO Add tests
